@@ -156,3 +156,26 @@ Example lower_bound_two_unions :
   has_type (TConst (sz 1869571631)) (CName (sz 134344151623215)) = true /\
   has_type u_foobar_string (CName (sz 134344151623215)) = false.
 Proof. vm_compute. repeat split. Qed.
+
+(* Regression witness for the meet of a tagged union with a struct type that overlaps one variant while its tag
+   field is wider than the variant's tag (seeded change C12-5 expanded the tagged-union operand of intersectType
+   with /name for the tag): neither conforms to the other, the model's intersect has no structural case (N92), so
+   the lower bound is the empty type in both modes and both orders - the list lies inside the fragment where the
+   judge reports a member of Go's lower bound outside an argument (code 8); {/kind: /zzz, /x: 1} is a member of
+   the struct type fn:Struct(/kind,/name,/x,/number) the seeded tree returned and not of the tagged union. *)
+Definition tu_kind_ab := TTagged (sz 431349132079)
+  [(sz 24879, TStruct [(sz 30767, TConst s_number)] []); (sz 25135, TStruct [(sz 31023, TConst s_string)] [])].
+Definition st_kind_name_x_any := TStruct [(sz 431349132079, TConst s_name); (sz 30767, TConst s_any)] [].
+Definition st_kind_name_x_number := TStruct [(sz 431349132079, TConst s_name); (sz 30767, TConst s_number)] [].
+Definition c_kind_zzz_x_1 :=
+  CStructCons (CName (sz 431349132079)) (CName (sz 2054847023)) (CStructCons (CName (sz 30767)) (CNum 1) CStructNil).
+Example lower_bound_tagged_struct :
+  lower_bound (set_conforms Fixed) id_srt [tu_kind_ab; st_kind_name_x_any] = Some t_empty /\
+  lower_bound (set_conforms Fixed) id_srt [st_kind_name_x_any; tu_kind_ab] = Some t_empty /\
+  lower_bound (set_conforms Strict) id_srt [tu_kind_ab; st_kind_name_x_any] = Some t_empty /\
+  lower_bound (set_conforms Fixed) id_srt [t_any; tu_kind_ab; st_kind_name_x_any] = Some t_empty /\
+  set_conforms Fixed st_kind_name_x_any tu_kind_ab = Some false /\
+  set_conforms Fixed tu_kind_ab st_kind_name_x_any = Some false /\
+  has_type st_kind_name_x_number c_kind_zzz_x_1 = true /\
+  has_type tu_kind_ab c_kind_zzz_x_1 = false.
+Proof. vm_compute. repeat split. Qed.
